@@ -412,7 +412,8 @@ class Report:
                     self.known.append((key, k["text"]))
                     return False
         os.makedirs(REPLAYS, exist_ok=True)
-        path = os.path.join(REPLAYS, "%s-%d-%d.json" % (self.pid, self.seed, len(self.violations)))
+        tag = "" if self.tier == "quick" else "-" + self.tier
+        path = os.path.join(REPLAYS, "%s%s-%d-%d.json" % (self.pid, tag, self.seed, len(self.violations)))
         with open(path, "w") as f:
             json.dump({"property": self.pid, "what": what, "replay": replay_obj,
                        "failing_input_found": found_input}, f, indent=1, default=str)
@@ -432,7 +433,8 @@ class Report:
         if not self.violations:
             # no stale replay of an earlier run of this property/seed
             import glob
-            for old in glob.glob(os.path.join(REPLAYS, "%s-%d-*.json" % (self.pid, self.seed))):
+            tag = "" if self.tier == "quick" else "-" + self.tier
+            for old in glob.glob(os.path.join(REPLAYS, "%s%s-%d-*.json" % (self.pid, tag, self.seed))):
                 try:
                     os.remove(old)
                 except OSError:
